@@ -149,9 +149,10 @@ def judge(ctx, cases, res, prop, site, modes=("o",), c04=False):
 
 def scaled_joins(ctx, cases, prop, ncases=16):
     """Joins over inputs longer than the engine's internal buffers (the 10 000-message channels between a stream join and its input goroutines).
-    Relational.tla's join is a bag homomorphism in its left input for inner, lookup and LEFT joins: (K x L) JOIN R = K x (L JOIN R) (every copy
+    Relational.tla's join is a bag homomorphism in its left input for inner, lookup and LEFT joins: (K x L) JOIN R = K x (L JOIN R), and for inner and lookup joins also in the right input (every copy
     of a left row meets the same right rows / is padded on its own; RIGHT and OUTER joins are excluded, their unmatched right rows appear once).
-    The TLC-exported case supplies L JOIN R; the left table is repeated K times so that it holds more than 10 000 rows."""
+    The TLC-exported case supplies L JOIN R; the left table is repeated K times so that it holds more than 30 000 rows (a source outruns the join by more than the
+    channel capacity); the driver reports the result as distinct rows with net multiplicities."""
     import collections
     q, picked = [], []
     for i, c in enumerate(cases):
@@ -159,11 +160,15 @@ def scaled_joins(ctx, cases, prop, ncases=16):
         nl = len(c["db"]["l"]["rows"])
         if f["join"] not in ("JOIN", "LOOKUP JOIN", "LEFT JOIN") or nl == 0 or c["sub"] or not c["all"]:
             continue
-        k = 10001 // nl + 17
+        k = 30001 // nl + 17
         t = tables_json(c["db"])
         t["l"]["repeat"] = k
-        q.append({"id": "%d:b" % i, "tables": t, "sql": c["sql"], "optimize": len(picked) % 2 == 0})
-        picked.append((i, k))
+        # inner and lookup joins are homomorphic in the right input as well: 5 x R makes the join consume its left input more slowly than the
+        # source produces it, so the left channel really fills up
+        m = 5 if f["join"] in ("JOIN", "LOOKUP JOIN") else 1
+        t["r"]["repeat"] = m
+        q.append({"id": "%d:b" % i, "tables": t, "sql": c["sql"], "optimize": len(picked) % 2 == 0, "bag": True})
+        picked.append((i, k, m))
         if len(picked) >= ncases:
             break
     if not picked:
@@ -173,23 +178,24 @@ def scaled_joins(ctx, cases, prop, ncases=16):
     ctx.driver("sql-run", ["-in", inp, "-out", out], timeout=3000)
     res = {x["id"]: x for x in ctx.read_ndjson(out)}
     nrows = 0
-    for i, k in picked:
+    for i, k, m in picked:
         c, x = cases[i], res["%d:b" % i]
         f = features(c["sql"])
-        shown = {"sql": c["sql"], "db": {kk: v["rows"] for kk, v in c["db"].items() if ("mem." + kk + " ") in c["sql"]}, "left_table_repeated": k}
+        shown = {"sql": c["sql"], "db": {kk: v["rows"] for kk, v in c["db"].items() if ("mem." + kk + " ") in c["sql"]}, "left_table_repeated": k, "right_table_repeated": m}
         if x["stage"] != "":
-            ctx.violation(dict({"site": "join-scaled", "why": x["stage"]}, **f), shown, expected="%d x the join of the unscaled tables" % k, observed=x["err"][:300], note="the join over a long input failed")
+            ctx.violation(dict({"site": "join-scaled", "why": x["stage"]}, **f), shown, expected="%d x the join of the unscaled tables" % (k * m), observed=x["err"][:300], note="the join over a long input failed")
             continue
-        got = collections.Counter(core.canon(r["v"]) for r in x["rows"] if not r["r"])
-        got.subtract(collections.Counter(core.canon(r["v"]) for r in x["rows"] if r["r"]))
-        want = collections.Counter({r: n * k for r, n in collections.Counter(core.canon(r) for r in c["all"]).items()})
-        nrows += len(x["rows"])
+        got = collections.Counter()
+        for b in x.get("bag") or []:
+            got[core.canon(b["v"])] += b["n"]
+        want = collections.Counter({r: n * k * m for r, n in collections.Counter(core.canon(r) for r in c["all"]).items()})
+        nrows += x["nrows"]
         if +got != want or any(n < 0 for n in got.values()):
             diff = {r: (got.get(r, 0), want.get(r, 0)) for r in set(got) | set(want) if got.get(r, 0) != want.get(r, 0)}
-            ctx.violation(dict({"site": "join-scaled", "why": "multiplicities"}, **f), shown, expected="every row of the unscaled join %d times" % k,
-                          observed={"row: (observed, expected)": dict(list(diff.items())[:5])}, note="join over a left input of more than 10 000 rows differs from K x the join of the unscaled input")
+            ctx.violation(dict({"site": "join-scaled", "why": "multiplicities"}, **f), shown, expected="every row of the unscaled join %d times" % (k * m),
+                          observed={"row: (observed, expected)": dict(list(diff.items())[:5])}, note="join over a left input of more than 30 000 rows differs from K x the join of the unscaled input")
     ctx.cover(evaluations=nrows, distinct=len(picked))
-    ctx.notes["scaled_joins"] = {"cases": len(picked), "output_rows": nrows, "left_rows_min": min(k * len(cases[i]["db"]["l"]["rows"]) for i, k in picked)}
+    ctx.notes["scaled_joins"] = {"cases": len(picked), "output_rows": nrows, "left_rows_min": min(k * len(cases[i]["db"]["l"]["rows"]) for i, k, m in picked)}
 
 
 # ---------------------------------------------------------------- CLI sample (what octosql prints)
